@@ -211,6 +211,13 @@ def mutate(s, m):
     elif cl == "argcount":
         call = "f1x + 1" if m.get("pos") == "noargs" else "f1x(1, 2, 3)"
         body = "FUNCTION f1x(p1 : INTEGER) : INTEGER;\n  RETURN (p1);\nEND_FUNCTION;\nRULE r1 FOR (e1);\nWHERE\n  wr : %s > 0;\nEND_RULE;\n" % call
+    elif cl == "include_missing":
+        head = "INCLUDE 'nosuch_file.exp';\n" * (1 if m.get("pos") == "once" else 40)
+    elif cl == "undef_use_item":
+        head = "USE FROM ub (nosuch_e);\n"
+        t = render(s, head, body)
+        return t + ("\nSCHEMA ub;\nUSE FROM uc;\nENTITY eb;\n  y : INTEGER;\nEND_ENTITY;\nEND_SCHEMA;\n"
+                    "\nSCHEMA uc;\nUSE FROM ub;\nENTITY ec;\n  y : INTEGER;\nEND_ENTITY;\nEND_SCHEMA;\n")
     elif cl == "type_cycle":
         pos = m.get("pos")
         body = {"two": "TYPE ta = tb;\nEND_TYPE;\nTYPE tb = ta;\nEND_TYPE;\n",
